@@ -188,7 +188,7 @@ def _worker(args):
                             res['violations'].append((v.signature, v.detail, getattr(v, 'min_case', None) or case))
                             col.first_failure_t = None
                         res['enumerated'] += 1
-                    res['exhaustive'] = not col.budget_hit
+                    res['exhaustive'] = (not col.budget_hit) and bool(getattr(sub, 'exhaustive', False))
                     _merge(res, col)
                 # random part
                 n = sub.examples(tier)
